@@ -20,7 +20,7 @@ FILES = {
     "pkg/utils.py": "class P:\n    pass\n\n\nclass B:\n    pass\n\n\nclass utils:\n    pass\n",
     "foo.py": "class Foo:\n    pass\n\n\nclass Baz:\n    pass\n",
     "barfoo.py": "class Qux:\n    pass\n\n\nclass Baz:\n    pass\n",
-    "shape.py": "class shape:\n    class Part:\n        pass\n",
+    "shape.py": "class shape:\n    class Part:\n        class Bolt:\n            pass\n",
     "mytyping.py": "class Tx:\n    pass\n",
     "_priv.py": "class Hidden:\n    pass\n",
     "only_in_td.py": "class Rare:\n    pass\n",
@@ -50,7 +50,7 @@ def write_fixture(d, tname):
 
 ATOM_SETS = {
     # distinct class names per import context (main stratum)
-    "main": ["int", "str", "NoneType", "uB", "uU", "puP", "fFoo", "bfQux", "Own", "OInner", "shp", "shpPart", "SIO", "txTx", "pu_utils", "pTop", "pvHidden", "ptHint"],
+    "main": ["int", "str", "NoneType", "uB", "uU", "puP", "fFoo", "bfQux", "Own", "OInner", "shp", "shpPart", "shpBolt", "SIO", "txTx", "pu_utils", "pTop", "pvHidden", "ptHint"],
     # same class name imported from two modules (collision stratum)
     "samename": ["int", "uB", "puB", "fBaz", "bfBaz", "NoneType"],
 }
@@ -71,7 +71,7 @@ def setup_ns(tmod):
 
     ns = gt.NS
     ns.update({"uB": utils.B, "uU": utils.U, "puP": pkg.utils.P, "puB": pkg.utils.B, "fFoo": foo.Foo, "fBaz": foo.Baz, "bfQux": barfoo.Qux,
-               "bfBaz": barfoo.Baz, "Own": tmod.Own, "OInner": tmod.Outer.Inner, "shp": shape.shape, "shpPart": shape.shape.Part,
+               "bfBaz": barfoo.Baz, "Own": tmod.Own, "OInner": tmod.Outer.Inner, "shp": shape.shape, "shpPart": shape.shape.Part, "shpBolt": shape.shape.Part.Bolt,
                "SIO": _io.StringIO, "txTx": mytyping.Tx, "pu_utils": pkg.utils.utils, "pTop": pkg.Top, "pvHidden": _priv.Hidden, "oRare": only_in_td.Rare,
                "ptHint": pkg.typing.Hint})
 
